@@ -109,6 +109,8 @@ def run(ctx, rep):
             risky = []
             for x in ast.walk(ast.Module(body=h.body, type_ignores=[])):
                 if isinstance(x, ast.Subscript):
+                    if _is_counter(prog, f, x.value) and isinstance(x.slice, (ast.Constant, ast.Name)):
+                        continue   # an item of a collections.Counter / defaultdict(int): a missing key reads as 0
                     risky.append(utext(x))
                 elif isinstance(x, ast.Call) and not (isinstance(x.func, ast.Attribute) and utext(x.func.value) == "logger"):
                     if isinstance(x.func, ast.Name) and x.func.id == "getattr" and len(x.args) == 3 and \
@@ -120,7 +122,7 @@ def run(ctx, rep):
                         if all(isinstance(a, (ast.Name, ast.Constant)) for a in list(x.args) + [k.value for k in x.keywords]):
                             continue
                     risky.append(utext(x))
-                elif isinstance(x, (ast.BinOp, ast.JoinedStr)) :
+                elif isinstance(x, (ast.BinOp, ast.JoinedStr)):
                     risky.append(utext(x))
             rep.check(not risky, "R2", key(f, None, "%s handler cannot raise itself" % utext(h.type)), f, h,
                       "an exception raised while handling (%s) escapes the containment" % "; ".join(risky[:3]))
@@ -250,6 +252,87 @@ def _strategy_body(ctx, rep, f, lp):
         rep.check(not extra, "R3", key(f, None, "no other condition can suppress a strategy's update"), f, pm[0], str(extra))
 
 
+def _memo_helper(ctx, caller, call, own_key):
+    """`self._h(LOOKUP, market_analytics, order)` where _h returns LOOKUP[key] for the order's own key and, on a
+    miss only, first stores (analytics[key].runner, analytics[key].traded.copy()) under that key.  Returns
+    (lookup text in the caller, the fill statement, source of the copy in the caller's terms) or None"""
+    from sa.kinds import expanded, guard_pairs
+    callees, conf = ctx.res.resolve_call(call, caller)
+    if len(callees) != 1:
+        return None
+    g = list(callees)[0]
+    ps = [p_ for p_ in g.params if p_ not in ("self", "cls")]
+    if len(ps) != len(call.args) or len(ps) != 3:
+        return None
+    amap = dict(zip(ps, [utext(a) for a in call.args]))
+
+    def in_caller_terms(e):
+        import copy as _c
+        t = ast.parse(expanded(g, e), mode="eval").body
+
+        class S(ast.NodeTransformer):
+            def visit_Name(self, n):
+                if n.id in amap:
+                    return ast.parse(amap[n.id], mode="eval").body
+                return n
+        return utext(S().visit(_c.deepcopy(t)))
+    cfgg = ctx.cfg(g)
+    fills = [st for st in walk_nodes(g.node.body, ast.Assign) if any(isinstance(t, ast.Subscript) for t in st.targets)
+             and any(call_name(x) == "copy" for x in walk_calls([st.value]))]
+    if len(fills) != 1:
+        return None
+    fill = fills[0]
+    tgt = [t for t in fill.targets if isinstance(t, ast.Subscript)][0]
+    lk = utext(tgt.value)
+    if lk not in amap or in_caller_terms(tgt.slice) != own_key:
+        return None
+    locs = {utext(t) for t in fill.targets if isinstance(t, ast.Name)}
+    # every result is the stored entry
+    for r in walk_nodes(g.node.body, ast.Return):
+        if r.value is None:
+            return None
+        ok = (isinstance(r.value, ast.Subscript) and utext(r.value.value) == lk and in_caller_terms(r.value.slice) == own_key) or \
+            (isinstance(r.value, ast.Name) and (r.value.id in locs or any(
+                isinstance(st.value, ast.Call) and call_name(st.value) == "get" and recv_text(st.value) == lk
+                for st in walk_nodes(g.node.body, ast.Assign) if r.value.id in [utext(t) for t in st.targets])))
+        if not ok:
+            return None
+    # the fill happens on a miss only
+    nfill = [x for x in cfgg.live_nodes() if x.ast is fill]
+    if len(nfill) != 1:
+        return None
+    miss = False
+    for h in [x for x in cfgg.live_nodes() if x.kind == "except"]:
+        if utext(h.ast.type) == "KeyError" and cfgg.dominates(h.id, nfill[0].id):
+            miss = True
+    for t_, pol in guard_pairs(cfgg, nfill[0].id):
+        if t_.endswith(" is None") and pol:
+            miss = True
+    if not miss:
+        return None
+    copies = [x for x in walk_calls([fill.value]) if call_name(x) == "copy"]
+    if len(copies) != 1:
+        return None
+    return amap[lk], fill, in_caller_terms(copies[0].func.value)
+
+
+def _is_counter(prog, caller, e):
+    """a module-level name (of this module, or `utils.<name>`) bound once to Counter() / defaultdict(int)"""
+    nm = e.attr if isinstance(e, ast.Attribute) else (e.id if isinstance(e, ast.Name) else None)
+    if nm is None:
+        return False
+    mods = [caller.module]
+    if isinstance(e, ast.Attribute) and isinstance(e.value, ast.Name):
+        mods = [m for m in prog.modules.values() if m.name.endswith("." + e.value.id)]
+    for m in mods:
+        defs = [st for st in m.tree.body if isinstance(st, ast.Assign) and len(st.targets) == 1
+                and isinstance(st.targets[0], ast.Name) and st.targets[0].id == nm]
+        if len(defs) == 1 and utext(defs[0].value) in ("collections.Counter()", "Counter()", "defaultdict(int)",
+                                                       "collections.defaultdict(int)"):
+            return True
+    return False
+
+
 def _contains_its_own_errors(prog, caller, name):
     cands = [g for g in prog.all_functions() if g.name == name and g.cls is None and g.module is caller.module]
     if len(cands) != 1:
@@ -306,6 +389,24 @@ def copy_discipline(ctx, rep, R):
                 if utext(tgt.value) == recv_text(g_[0].value) and len(nfill) == 1 and \
                         ("%s is None" % rt, True) in guard_pairs(cfg, nfill[0].id):
                     lookup, memo = utext(tgt.value), f_[0]
+            elif len(g_) == 1 and not f_:
+                # the same written in two statements: rt = (.., traded.copy()) ; LOOKUP[key] = rt  (both on the miss)
+                f2 = [s for s in d if s not in g_ and any(call_name(x) == "copy" for x in walk_calls([s.value]))]
+                st2 = [s for s in walk_nodes(order_loop.body, ast.Assign) if len(s.targets) == 1 and isinstance(s.targets[0], ast.Subscript)
+                       and expanded(f, s.targets[0].slice) == own_key and utext(s.value) == rt]
+                if len(f2) == 1 and len(st2) == 1 and utext(st2[0].targets[0].value) == recv_text(g_[0].value):
+                    n1 = [x for x in cfg.live_nodes() if x.ast is f2[0]]
+                    n2 = [x for x in cfg.live_nodes() if x.ast is st2[0]]
+                    if len(n1) == 1 and len(n2) == 1 and ("%s is None" % rt, True) in guard_pairs(cfg, n1[0].id) and \
+                            ("%s is None" % rt, True) in guard_pairs(cfg, n2[0].id) and cfg.dominates(n1[0].id, n2[0].id):
+                        lookup, memo = utext(st2[0].targets[0].value), f2[0]
+        memo_src = None
+        # (c) memoised in a helper: runner_traded = self._helper(LOOKUP, market_analytics, order), the helper
+        # returning LOOKUP[key] and filling it on a miss (try / except KeyError, or .get + `is None`)
+        if lookup is None and len(d) == 1 and isinstance(d[0].value, ast.Call) and not d[0].value.keywords:
+            mh = _memo_helper(ctx, f, d[0].value, own_key)
+            if mh is not None:
+                lookup, memo, memo_src = mh
         good = lookup is not None
         rep.check(good, R, key(f, c, "ladder looked up by the order's own (selection, handicap)"), f, c)
         if not good:
@@ -336,7 +437,7 @@ def copy_discipline(ctx, rep, R):
                 # the table starts empty in the right scope and a runner's ladder is copied when its first order
                 # comes up (the fill above is guarded by the miss), from the analytics entry of that same key
                 copies = [x for x in walk_calls([memo.value]) if call_name(x) == "copy"]
-                src = expanded(f, copies[0].func.value) if len(copies) == 1 else ""
+                src = (memo_src if memo_src is not None else expanded(f, copies[0].func.value)) if len(copies) == 1 else ""
                 ok = isinstance(v, ast.Dict) and not v.keys and len(copies) == 1 and \
                     src in ("market_analytics[%s].traded" % own_key, "market_analytics[order.selection_id, order.handicap].traded")
             if isolated:
